@@ -615,6 +615,29 @@ def norm(repo, fi: FuncInfo, t: T, keep=()) -> T:
     return _order_products(canon(inline(repo, fi, t, keep=keep)))
 
 
+def value_norm(t: T) -> T:
+    """Spellings that do not change WHAT is computed, removed on both sides of a comparison of values: container / dtype conversions
+    (`np.asarray(x)`, `x.astype(..)`, `x.tolist()`, `list(x)`), `X.shape[0]` for `len(X)`, the number of branches written as
+    `len(self.ncomp_per_branch)` for `self.total_nbranches`."""
+    t = shape_norm(t)
+
+    def rec(x):
+        if not x.args and not x.kw:
+            return x
+        x = T(x.op, x.name, [rec(a) for a in x.args], {k: rec(v) for k, v in x.kw.items()}, x.node)
+        if x.op == "mcall" and x.name in ("asarray", "array", "asanyarray") and len(x.args) >= 2 and x.args[0].op == "free":
+            return x.args[1]
+        if x.op == "mcall" and x.name in ("astype", "tolist", "to_list", "to_numpy", "copy") and x.args and x.args[0].op != "free":
+            return x.args[0]
+        if x.op == "call" and x.name in ("list", "tuple") and len(x.args) == 1 and not x.kw:
+            return x.args[0]
+        if x.op == "call" and x.name == "len" and len(x.args) == 1 and x.args[0].op == "attr" and x.args[0].name == "ncomp_per_branch" and \
+                x.args[0].args and x.args[0].args[0].op == "param" and x.args[0].args[0].name == "self":
+            return T("attr", "total_nbranches", [x.args[0].args[0]], node=x.node)
+        return x
+    return rec(t)
+
+
 def same_expr(repo, fi: FuncInfo, stmt: ast.AST, value: ast.AST, expected_src: str, keep=(), locals_from=None) -> bool:
     """Does `value` (an expression of statement `stmt` in `fi`) compute `expected_src`?  Both sides are expanded through
     local temporaries and value-only helpers and brought to normal form, so renaming / hoisting / helper extraction do
@@ -640,6 +663,11 @@ def same_expr(repo, fi: FuncInfo, stmt: ast.AST, value: ast.AST, expected_src: s
             continue
         if want.key() == got.key():
             return True
+        try:
+            if _order_products(value_norm(want)).key() == _order_products(value_norm(got)).key():
+                return True
+        except Exception:
+            pass
     return False
 
 
